@@ -76,7 +76,7 @@ def run(tier, replay):
                 if x["a"] == "shell":
                     shells[x["c"]] = shells.get(x["c"], 0) + 1
             noshell = any(x["a"] == "close" and shells.get(x["c"], 0) == 0 for x in c["hist"])
-            return noshell or any(v > 1 for v in shells.values()) or "authfail" in acts or "otherchannel" in acts or "badrequest" in acts
+            return noshell or any(v > 1 for v in shells.values()) or "authfail" in acts or "otherchannel" in acts or "channelburst" in acts or "badrequest" in acts
         cases.sort(key=lambda c: not interesting(c))
         cases = cases[:(45 if tier == "quick" else 400)]
         # a burst: Max+2 TCP connections before any handshake
@@ -84,6 +84,10 @@ def run(tier, replay):
                       [{"a": "auth", "c": i, "counter": 0, "refused": False} for i in (1, 2, 3, 4)] +
                       [{"a": "shell", "c": i, "counter": 0, "refused": False} for i in (1, 2, 3, 4)] +
                       [{"a": "close", "c": i, "counter": 0, "refused": False} for i in (1, 2, 3, 4)], "burst": True})
+        # one connection with a served session and more channel opens in flight than the SSH library queues, then it ends
+        for sd in (21, 22, 23):
+            cases.append({"id": 0, "max": 2, "seed": sd, "hist": [{"a": a, "c": 1, "counter": 0, "refused": False}
+                                                                  for a in ("connect", "auth", "shell", "channelburst", "close")]})
         for i, c in enumerate(cases):
             c["id"] = i + 1
         cj, oj = os.path.join(wd, "cases.json"), os.path.join(wd, "out.json")
